@@ -73,6 +73,49 @@ func multiMembers() []multiMember {
 			{Name: "b.json", ID: "https://example.com/b", Root: objSpec(&fam.Prop{Label: "o2", Spec: opt("optB", "optA")})}},
 		orders: [][]string{{"a.json", "b.json"}, {"b.json", "a.json"}},
 		outOf:  map[string]string{"a.json": "out.go", "b.json": "out.go"}, pkgOf: map[string]string{"out.go": "example.com/pkg/model"}})
+	// ... differing only in the value of ONE validation keyword (each declaration's checks are its own schema's)
+	for _, v := range []struct {
+		what string
+		mk   func() *fam.Spec
+		req  bool
+	}{
+		{"minLength", func() *fam.Spec { return &fam.Spec{Kind: "string", Kw: []string{"minLength"}} }, false},
+		{"maxLength", func() *fam.Spec { return &fam.Spec{Kind: "string", Kw: []string{"maxLength"}} }, false},
+		{"pattern", func() *fam.Spec { return &fam.Spec{Kind: "string", Kw: []string{"pattern"}} }, false},
+		{"minimum", func() *fam.Spec { return &fam.Spec{Kind: "integer", Kw: []string{"minimum"}} }, false},
+		{"maximum", func() *fam.Spec { return &fam.Spec{Kind: "number", Kw: []string{"maximum"}} }, false},
+		{"multipleOf", func() *fam.Spec { return &fam.Spec{Kind: "integer", Kw: []string{"multipleOf"}} }, false},
+		{"minItems", func() *fam.Spec {
+			return &fam.Spec{Kind: "array", Items: &fam.Spec{Kind: "string"}, Kw: []string{"minItems"}}
+		}, false},
+		{"maxItems", func() *fam.Spec {
+			return &fam.Spec{Kind: "array", Items: &fam.Spec{Kind: "string"}, Kw: []string{"maxItems"}}
+		}, false},
+		{"required", func() *fam.Spec { return &fam.Spec{Kind: "string"} }, true},
+	} {
+		mk := func(label, same string, second bool) *fam.Spec {
+			s := objSpec(&fam.Prop{Label: "t" + label, SameAs: "t" + same, Spec: v.mk(), Required: v.req && second})
+			s.Ref, s.DefLabel, s.DefSameAs = "$defs", label, same
+			return s
+		}
+		out = append(out, multiMember{name: "same-named definitions in two files differing only in " + v.what, cfg: base,
+			files: []*fam.FileSpec{{Name: "a.json", ID: "https://example.com/a", Root: objSpec(&fam.Prop{Label: "o", Spec: mk("kA", "", false)})},
+				{Name: "b.json", ID: "https://example.com/b", Root: objSpec(&fam.Prop{Label: "o2", Spec: mk("kB", "kA", true)})}},
+			orders: [][]string{{"a.json", "b.json"}},
+			outOf:  map[string]string{"a.json": "out.go", "b.json": "out.go"}, pkgOf: map[string]string{"out.go": "example.com/pkg/model"}})
+	}
+	// same-named definitions in two files whose bodies differ only in the TARGET of a same-text nested reference
+	nest := func(label, same string, leaf *fam.Spec) *fam.Spec {
+		leaf.Ref, leaf.DefLabel, leaf.DefSameAs = "$defs", "leaf"+label, "leaf"+same
+		s := objSpec(&fam.Prop{Label: "x" + label, SameAs: "x" + same, Spec: leaf})
+		s.Ref, s.DefLabel, s.DefSameAs = "$defs", label, same
+		return s
+	}
+	out = append(out, multiMember{name: "same-named definitions in two files differing only in the target of a nested reference", cfg: base,
+		files: []*fam.FileSpec{{Name: "a.json", ID: "https://example.com/a", Root: objSpec(&fam.Prop{Label: "o", Spec: nest("nA", "", &fam.Spec{Kind: "string", Kw: []string{"minLength"}})})},
+			{Name: "b.json", ID: "https://example.com/b", Root: objSpec(&fam.Prop{Label: "o2", Spec: nest("nB", "nA", &fam.Spec{Kind: "integer", Kw: []string{"minimum"}})})}},
+		orders: [][]string{{"a.json", "b.json"}, {"b.json", "a.json"}},
+		outOf:  map[string]string{"a.json": "out.go", "b.json": "out.go"}, pkgOf: map[string]string{"out.go": "example.com/pkg/model"}})
 	// a cycle across two files
 	t := objSpec(&fam.Prop{Label: "v", Spec: &fam.Spec{Kind: "string"}, Required: true})
 	t.Ref, t.RefFile = "$defs", "b.json"
@@ -86,83 +129,108 @@ func multiMembers() []multiMember {
 
 // ruleMulti runs the multi-file families and checks routing, single emission, qualification, joint type-checking,
 // per-definition validation and independence from argument order / unrelated files.
-func ruleMulti(c *core.Ctx, want map[string]bool) {
+func ruleMulti(c *core.Ctx, want map[string]bool) { ruleMultiSel(c, want, 10) }
+
+// ruleMultiSel runs the multi-file members whose name contains one of the words (all when none is given).
+func ruleMultiSel(c *core.Ctx, want map[string]bool, floor int, words ...string) {
 	skel.DepsDir = filepath.Join(c.VerifDir, "checker", "testdata", "emitdeps")
 	for _, mm := range multiMembers() {
+		sel := len(words) == 0
+		for _, wd := range words {
+			if strings.Contains(mm.name, wd) {
+				sel = true
+			}
+		}
+		if !sel {
+			continue
+		}
 		c.Counts["multi_members"]++
 		var ref map[string]string // normalised text per output file of the first order
 		var refArgs []string
 		for _, args := range mm.orders {
 			worlds, complete := fam.RunMulti(c.Prog, mm.cfg, mm.files, args, 64)
 			key := fmt.Sprintf("multi: %s args=%v", mm.name, args)
-			if !complete || len(worlds) != 1 {
-				c.Undecided("A-UNDECIDED", "(families)", key, "", fmt.Sprintf("expected one world, got %d (complete=%v)", len(worlds), complete))
+			if !complete || len(worlds) == 0 {
+				c.Undecided("A-UNDECIDED", "(families)", key, "", fmt.Sprintf("%d worlds (complete=%v)", len(worlds), complete))
 				continue
 			}
-			w := worlds[0]
-			c.Counts["multi_runs"]++
-			var issues []fam.Issue
-			issues = append(issues, w.RunIssues()...)
-			if w.Err == nil && w.GenErr != "" {
-				issues = append(issues, fam.Issue{Rule: "A-GENERR", Construct: "generator rejects a valid multi-file input", Msg: w.GenErr})
-			}
-			if w.Err == nil && w.GenErr == "" {
-				issues = append(issues, w.SynIssues()...)
-				issues = append(issues, w.TypeCheckAll(c.Prog.Repo, mm.pkgOf)...)
-				issues = append(issues, checkRouting(mm, w, args)...)
-				// normalised outputs for the relational clauses
-				cur := map[string]string{}
-				for n, fm := range w.Models {
-					cur[n] = normalizedFile(fm)
+			single := len(worlds) == 1 // the order clause compares the one world of each invocation
+			baseKey := key
+			for wi, w := range worlds {
+				key := baseKey
+				if !single {
+					key = fmt.Sprintf("%s world %d%v", baseKey, wi, w.Script)
 				}
-				if ref == nil {
-					ref, refArgs = cur, args
-				} else {
-					for n, txt := range cur {
-						if r, ok := ref[n]; ok && r != txt && sameSchemasReach(mm, n, args, refArgs) {
-							construct := "declarations differ between argument orders / with unrelated files"
-							if suffixFree(r) == suffixFree(txt) {
-								construct = "which of several same-named definitions gets the numeric suffix depends on the argument order"
+				c.Counts["multi_runs"]++
+				var issues []fam.Issue
+				issues = append(issues, w.RunIssues()...)
+				if w.Err == nil && w.GenErr != "" {
+					issues = append(issues, fam.Issue{Rule: "A-GENERR", Construct: "generator rejects a valid multi-file input", Msg: w.GenErr})
+				}
+				if w.Err == nil && w.GenErr == "" {
+					issues = append(issues, w.SynIssues()...)
+					issues = append(issues, w.TypeCheckAll(c.Prog.Repo, mm.pkgOf)...)
+					issues = append(issues, checkRouting(mm, w, args)...)
+					// normalised outputs for the relational clauses
+					cur := map[string]string{}
+					for n, fm := range w.Models {
+						cur[n] = normalizedFile(fm)
+					}
+					if !single {
+						// several worlds (relative order of two limits): the order clause is decided on the single-world members
+					} else if ref == nil {
+						ref, refArgs = cur, args
+					} else {
+						for n, txt := range cur {
+							if r, ok := ref[n]; ok && r != txt && sameSchemasReach(mm, n, args, refArgs) {
+								construct := "declarations differ between argument orders / with unrelated files"
+								if suffixFree(r) == suffixFree(txt) {
+									construct = "which of several same-named definitions gets the numeric suffix depends on the argument order"
+								}
+								issues = append(issues, fam.Issue{Rule: "A-ORDER", Construct: construct,
+									Msg: fmt.Sprintf("output file %s differs between the invocations %v and %v although the schemas that land in it are the same: %s", n, refArgs, args, firstDiff(r, txt))})
 							}
-							issues = append(issues, fam.Issue{Rule: "A-ORDER", Construct: construct,
-								Msg: fmt.Sprintf("output file %s differs between the invocations %v and %v although the schemas that land in it are the same: %s", n, refArgs, args, firstDiff(r, txt))})
 						}
 					}
 				}
-			}
-			bad := 0
-			for _, is := range issues {
-				base := is.Rule
-				if i := strings.IndexByte(base, ':'); i >= 0 {
-					base = base[:i]
+				bad := 0
+				for _, is := range issues {
+					base := is.Rule
+					if i := strings.IndexByte(base, ':'); i >= 0 {
+						base = base[:i]
+					}
+					if !(want[is.Rule] || want[base] || is.Rule == "A-UNDECIDED" || is.Rule == "A-SYN" || is.Rule == "A-PANIC" || is.Rule == "A-GENERR") {
+						continue
+					}
+					fn := "(emitted code)"
+					// multi-file findings are identified by the scenario they occur in
+					if !strings.HasPrefix(is.Construct, "which of several same-named definitions") { // one cause whatever the scenario
+						is.Construct = "[" + mm.name + "] " + is.Construct
+					}
+					if c.IsKnown(is.Rule, fn, is.Construct) {
+						c.Report(core.Finding{Rule: is.Rule, Func: fn, Construct: is.Construct, Msg: is.Msg})
+						continue
+					}
+					bad++
+					kind := "violation"
+					if is.Rule == "A-UNDECIDED" {
+						kind = "undecided"
+					}
+					c.Report(core.Finding{Rule: is.Rule, Func: fn, Construct: is.Construct, Kind: kind, Msg: is.Msg + "  [first seen on: " + key + "]"})
 				}
-				if !(want[is.Rule] || want[base] || is.Rule == "A-UNDECIDED" || is.Rule == "A-SYN" || is.Rule == "A-PANIC" || is.Rule == "A-GENERR") {
-					continue
+				c.Obl("multi-file", key, bad == 0, fmt.Sprintf("%d issue(s); loader calls %v", bad, w.Loads))
+				if len(c.Samples) < 8 {
+					var outs []string
+					for n := range w.Files {
+						outs = append(outs, n)
+					}
+					sort.Strings(outs)
+					c.Sample(map[string]any{"multi_file_member": key, "output_files": outs, "loader_calls": w.Loads, "issues": bad})
 				}
-				fn := "(emitted code)"
-				if c.IsKnown(is.Rule, fn, is.Construct) {
-					c.Report(core.Finding{Rule: is.Rule, Func: fn, Construct: is.Construct, Msg: is.Msg})
-					continue
-				}
-				bad++
-				kind := "violation"
-				if is.Rule == "A-UNDECIDED" {
-					kind = "undecided"
-				}
-				c.Report(core.Finding{Rule: is.Rule, Func: fn, Construct: is.Construct, Kind: kind, Msg: is.Msg + "  [first seen on: " + key + "]"})
-			}
-			c.Obl("multi-file", key, bad == 0, fmt.Sprintf("%d issue(s); loader calls %v", bad, w.Loads))
-			if len(c.Samples) < 8 {
-				var outs []string
-				for n := range w.Files {
-					outs = append(outs, n)
-				}
-				sort.Strings(outs)
-				c.Sample(map[string]any{"multi_file_member": key, "output_files": outs, "loader_calls": w.Loads, "issues": bad})
 			}
 		}
 	}
-	c.Floor("multi", c.Counts["multi_runs"], 10, "multi-file generator runs")
+	c.Floor("multi", c.Counts["multi_runs"], floor, "multi-file generator runs")
 }
 
 func normalizedFile(fm *fam.FileModel) string {
@@ -348,15 +416,37 @@ func checkRouting(mm multiMember, w *fam.MultiWorld, args []string) []fam.Issue 
 				}
 			}
 			// same-file definitions with defaults etc.
-			for _, is := range w.CheckObject(fm, fs.Root, "", fs.Name) {
+			for _, is := range w.CheckObject(fm, sameFileView(fs.Root), "", fs.Name) {
 				switch is.Rule {
-				case "A-DEF", "A-REQ":
+				case "A-DEF", "A-REQ", "A-MAP", "A-REJ", "A-NOEXTRA", "A-NILG":
+					if is.Rule == "A-NOEXTRA" && strings.Contains(is.Construct, "presence check") {
+						continue // the view dropped the (possibly required) cross-file properties
+					}
 					out = append(out, is)
 				}
 			}
 		}
 	}
 	return out
+}
+
+// sameFileView is the spec without the properties that refer into another file (those are checked where their target lands).
+func sameFileView(s *fam.Spec) *fam.Spec {
+	if s == nil {
+		return nil
+	}
+	c := *s
+	c.Props = nil
+	for _, p := range s.Props {
+		if p.Spec.RefFile != "" || p.Spec.RefRootOf != "" {
+			continue
+		}
+		np := *p
+		np.Spec = sameFileView(p.Spec)
+		c.Props = append(c.Props, &np)
+	}
+	c.Items = sameFileView(s.Items)
+	return &c
 }
 
 func contains(xs []string, x string) bool {
